@@ -107,14 +107,22 @@ def main(ctx, replay=None):
             if kind == "sys" and n % 2 == 0:
                 kw["minimal"] = True                      # a sufficient PROPER subset of the components: the rest comes from the filling
             ds = system_dataset(rng, exports, arg, **kw) if kind == "sys" else free_dataset(rng, extra_shear=arg, **kw)
-            d = wd.sub(f"case{n}")
+            # every fourth data set (from the sixth on) is written over the files of the one before it: same paths, new contents, same process
+            reuse = n >= 5 and n % 4 == 1 and bool(datasets)
+            d = datasets[-1][1] if reuse else wd.sub(f"case{n}")
             ds.fit_pressure_window(d)
             pres = {"spell": "four" if n % 6 == 1 else True} if n % 3 == 1 else {}       # every third table with other column spellings
             if n % 4 == 2:
                 pres["exponent"] = True                   # static values in exponent notation
+            if n % 5 == 3:
+                # rows of the static table (and of its lattice block) ascending in volume, or in no order
+                pres["row_perm"] = list(range(ds.nv_static))[::-1] if n % 2 else [int(i) for i in rng.permutation(ds.nv_static)]
             sp = ds.write(d, pres=pres or None)
-            datasets.append((ds, d))
-            desc = {"kind": kind, "arg": arg, "nv": ds.nv, "nq": ds.nq, "nat": ds.nat, "lattice": ds.lattice, "interp": ds.interpolator,
+            if reuse:
+                datasets[-1] = (ds, d)
+            else:
+                datasets.append((ds, d))
+            desc = {"kind": kind, "same_paths_as_previous": reuse, "static_rows": "reordered" if "row_perm" in pres else "descending", "arg": arg, "nv": ds.nv, "nq": ds.nq, "nat": ds.nat, "lattice": ds.lattice, "interp": ds.interpolator,
                     "keys": ["%d%d" % k for k in ds.keys], "settings": ds.settings}
             ctx.count(desc)
             if n < 2:
